@@ -94,5 +94,5 @@ Accept(A, M, ev) ==
        [] OTHER -> FALSE
   /\ On(A, "count", ev.c1 = MSize(MNextCall(M, ev)))
 
-Next(M, ev) == MNextCall(M, ev)
+MNext(M, ev) == MNextCall(M, ev)
 =============================================================================
